@@ -15,6 +15,7 @@ package main
 
 import (
 	"context"
+	"math"
 	"crypto/sha1"
 	"encoding/hex"
 	"fmt"
@@ -73,6 +74,29 @@ func (c pcase) runParked() parkedOut {
 	return out
 }
 
+// markerMsg: the value of the sacrificial items written around a window; it has to pass the include filter.
+func (c pcase) markerMsg() proto.Message {
+	m := c.Type.New()
+	if c.Inc != nil {
+		fd := m.Descriptor().Fields().ByName(pref.Name(c.Inc.Field))
+		v := c.Inc.Thr + 1
+		if c.Inc.Op == "lt" {
+			v = c.Inc.Thr - 1
+		}
+		m.Set(fd, floatValue(fd, v))
+	}
+	return m.Interface()
+}
+
+// visible: what the subscriber may see of a stored item: nothing when absent or outside the include
+// filter, else the item under the read mask (independent of pkg/resource and pkg/masks).
+func (c pcase) visible(m proto.Message) proto.Message {
+	if m == nil || (c.Inc != nil && !c.Inc.holds(m)) {
+		return nil
+	}
+	return c.oracleFilter(m)
+}
+
 func (c pcase) runParkedInner(out *parkedOut) {
 	clk := &fakeClock{t: t0}
 	col := resource.NewCollection(append(c.options(), resource.WithClock(clk))...)
@@ -125,10 +149,16 @@ func (c pcase) runParkedInner(out *parkedOut) {
 			return nil
 		}
 	}
-	for n := len(stored); n > 0; n-- {
+	seeds := 0
+	for _, m := range stored {
+		if c.visible(m) != nil {
+			seeds++
+		}
+	}
+	for n := seeds; n > 0; n-- {
 		x := recv()
 		if x == nil || !x.SeedValue {
-			out.err = fmt.Sprintf("expected %d seed values, got %v", len(stored), x)
+			out.err = fmt.Sprintf("expected %d seed values, got %v", seeds, x)
 			return
 		}
 	}
@@ -140,7 +170,7 @@ func (c pcase) runParkedInner(out *parkedOut) {
 			out.windows = append(out.windows, parkedWindow{start: copyStored(stored)})
 			w = &out.windows[len(out.windows)-1]
 			// the forwarding loop takes this change and blocks handing it to us: we are not receiving
-			if _, err := col.Add(fmt.Sprintf("~park%d", len(out.windows)), c.Type.New().Interface()); err != nil {
+			if _, err := col.Add(fmt.Sprintf("~park%d", len(out.windows)), c.markerMsg()); err != nil {
 				out.err = err.Error()
 				return
 			}
@@ -150,7 +180,7 @@ func (c pcase) runParkedInner(out *parkedOut) {
 				return
 			}
 			end := fmt.Sprintf("~end%d", len(out.windows))
-			if _, err := col.Add(end, c.Type.New().Interface()); err != nil {
+			if _, err := col.Add(end, c.markerMsg()); err != nil {
 				out.err = err.Error()
 				return
 			}
@@ -198,7 +228,7 @@ func ctName(t types.ChangeType) string { return t.String() }
 func (c pcase) parkedTie(out parkedOut, drv *lib.Driver) (line, model, code string, err error) {
 	var lines []string
 	for _, w := range out.windows {
-		parts := []string{"cmerge", c.specToken(), c.filterToken()}
+		parts := []string{"cmerge", c.specToken(), c.filterToken(), c.Inc.token(c.Type)}
 		for _, e := range w.evs {
 			parts = append(parts, e.id, e.ct, encTop(e.old), encTop(e.new))
 		}
@@ -281,19 +311,19 @@ func (c pcase) monitorParked(ms *monitors, out parkedOut) {
 			got[g.Id] = g
 		}
 		for _, id := range ids {
-			s, e := c.oracleFilter(w.start[id]), c.oracleFilter(w.end[id])
+			s, e := c.visible(w.start[id]), c.visible(w.end[id])
 			equiv := false
 			if E != nil && s != nil && e != nil {
 				equiv = E(s, e)
 			}
 			expected := !(s == nil && e == nil) && !equiv
 			g := got[id]
-			ms.delivery.Eval(fmt.Sprintf("cpark %s %s %s|%s", c.specToken(), c.filterToken(), encTop(s), encTop(e)), E != nil, nil)
-			ms.delivery.Count(fmt.Sprintf("cpark:events=%d:equiv=%v:delivered=%v", min(len(w.evs), 6), equiv, g != nil))
+			ms.delivery.Eval(fmt.Sprintf("cpark %s %s %s %s|%s", c.specToken(), c.filterToken(), c.Inc.token(c.Type), encTop(s), encTop(e)), E != nil, nil)
+			ms.delivery.Count(fmt.Sprintf("cpark:include=%v:events=%d:equiv=%v:delivered=%v", c.Inc != nil, min(len(w.evs), 6), equiv, g != nil))
 			desc := fmt.Sprintf("window %d id %s: held %v, stored at the end %v", wi, id, s, e)
 			switch {
 			case g != nil && !expected && s == nil && e == nil:
-				ms.delivery.Violate(site+"invisible-change-delivered", "an item that was absent before and after the window was reported", in, desc+": nothing", fmt.Sprint(g))
+				ms.delivery.Violate(site+"invisible-change-delivered", "an item that was absent (or outside the include filter) before and after the window was reported", in, desc+": nothing", fmt.Sprint(g))
 			case g != nil && !expected:
 				ms.delivery.Violate(site+"delivered-equivalent", "the merged change of a window is equivalent to the value the subscriber holds but was delivered", in, desc+": suppressed", fmt.Sprint(g))
 			case g == nil && expected && (s == nil) != (e == nil):
@@ -367,6 +397,7 @@ func (g *gen) pcaseParked() pcase {
 	}
 	c := pcase{Kind: "cpark", Type: mt}
 	base := g.newMessage(mt, 1)
+	var written []float64
 	next := func(prev proto.Message) proto.Message {
 		m := proto.Clone(prev)
 		r := m.ProtoReflect()
@@ -377,6 +408,7 @@ func (g *gen) pcaseParked() pcase {
 			if g.r.Intn(4) == 0 {
 				g.mutate(r, 1)
 			}
+			written = append(written, r.Get(fd).Float())
 			return m
 		}
 		for n := g.r.Intn(3); n > 0; n-- {
@@ -449,6 +481,13 @@ func (g *gen) pcaseParked() pcase {
 	} else {
 		c.Spec, c.NoDup = g.pullSpec()
 	}
+	if floatStyle && len(written) > 0 && g.r.Intn(5) < 2 {
+		// WithInclude on the nudged field: threshold on / just beside a written value, so windows cross the boundary
+		thr := written[g.r.Intn(len(written))] + []float64{0, 0, -0.125, 0.125, -0.0625, 0.0625, 0.5, -1}[g.r.Intn(8)]
+		if !math.IsNaN(thr) && !math.IsInf(thr, 0) {
+			c.Inc = &incSpec{Field: string(fd.Name()), Op: []string{"gt", "lt", "ge"}[g.r.Intn(3)], Thr: thr}
+		}
+	}
 	if g.r.Intn(3) == 0 {
 		c.Mask = g.mask(mt, base)
 		if c.Mask != nil && floatStyle && g.r.Intn(2) == 0 {
@@ -460,7 +499,7 @@ func (g *gen) pcaseParked() pcase {
 
 func runParked(f lib.Flags, res *lib.Result, drv *lib.Driver, ms *monitors) {
 	ex := res.Tie("lossy-merge-window-exhaustive", "K2",
-		"Collection.Pull WITHOUT backpressure, subscriber parked during one window of writes to one id: ALL write sequences of length 1..3 (thorough: 1..4) — from present: Update | Delete, from absent: Add — every written value from {10, 10.75, 11.5} (held value; within / beyond the tolerance of it, each within the tolerance of its neighbour), start state absent | present(10), equivalence none | WithNoDuplicates | Equal(FloatValueApprox(0,1)). The model (mergerWindow + lossyStep) must predict the delivered changes: id, type, which old and which new value. Non-trivial: every case")
+		"Collection.Pull WITHOUT backpressure, subscriber parked during one window of writes to one id: ALL write sequences of length 1..3 (thorough: 1..4) — from present: Update | Delete, from absent: Add — every written value from {10, 10.75, 11.5} (held value; within / beyond the tolerance of it, each within the tolerance of its neighbour), start state absent | present(10), equivalence none | WithNoDuplicates | Equal(FloatValueApprox(0,1)), WithInclude none | value > 10.5 (the held value is outside, the other two inside). The model (mergerWindow + lossyStep) must predict the delivered changes: id, type, which old and which new value. Non-trivial: every case")
 	ex.Exhaustive = true
 	vals := []float64{10, 10.75, 11.5}
 	maxLen := 3
@@ -490,16 +529,19 @@ func runParked(f lib.Flags, res *lib.Result, drv *lib.Driver, ms *monitors) {
 		}
 		return true
 	}
+	incs := []*incSpec{nil, {Field: "default_double", Op: "gt", Thr: 10.5}}
 	for _, ops := range parkedShapes(maxLen, vals) {
 		for _, s := range specs {
-			c := pcase{Kind: "cpark", Type: ancestorTypes[0], Spec: s.spec, NoDup: s.nodup, Ops: ops}
-			if !record(ex, c, true) {
-				return
+			for _, inc := range incs {
+				c := pcase{Kind: "cpark", Type: ancestorTypes[0], Spec: s.spec, NoDup: s.nodup, Inc: inc, Ops: ops}
+				if !record(ex, c, true) {
+					return
+				}
 			}
 		}
 	}
 	tie := res.Tie("lossy-merge-window", "K1",
-		"random parked-subscriber runs of Collection.Pull without backpressure: 0-3 initial items (ids a,b,c), 1-3 windows of 1-6 writes (Add/Update/Delete, 70% on one focus id, so delete+add+update runs on a held id are frequent), written value = a small step from the previous one (float nudges recorded for the tolerance, or 0-2 random mutations) or the value held when the window began; any ancestor type; equivalence none | WithNoDuplicates | Equal() | Equal(tolerances around the written steps); optional read mask. Non-trivial: runs with an equivalence configured")
+		"random parked-subscriber runs of Collection.Pull without backpressure: 0-3 initial items (ids a,b,c), 1-3 windows of 1-6 writes (Add/Update/Delete, 70% on one focus id, so delete+add+update runs on a held id are frequent), written value = a small step from the previous one (float nudges recorded for the tolerance, or 0-2 random mutations) or the value held when the window began; any ancestor type; equivalence none | WithNoDuplicates | Equal() | Equal(tolerances around the written steps); optional read mask; on TestAllTypes 40% with WithInclude(float field gt/lt/ge a threshold on or beside a written value). Non-trivial: runs with an equivalence configured")
 	g := &gen{r: lib.NewRand(f.Seed + 15485863)}
 	for i, n := 0, f.N(250, 4000); i < n; i++ {
 		c := g.pcaseParked()
